@@ -286,7 +286,9 @@ def run(rep, tier, seed):
     rep.cov["distinct_nontrivial"] = len({it["src"] for it in items + ctrl + longs if it["id"] in verdicts})
     rep.cov["rule"] = ("programs with a marker statement between the statements of every block: seeded random programs, "
                        "loop nests with plain / labelled break / continue at every position, break / continue / return in "
-                       "19 operand positions x while / loop, long runs in sparse trace mode; non-trivial = the trace "
+                       "19 operand positions x while / loop, long runs in sparse trace mode; assignments to 18 kinds of targets that cannot be "
+                       "assigned to x 6 places x top level / function / filter action (must be refused); statements with 255 / 256 call "
+                       "arguments and 255-257 literal elements in loops; filter mode with boolean and non-boolean patterns over thousands of packets; non-trivial = the trace "
                        "contains at least one marker or backward jump (all do); distinct = distinct source texts")
     rep.cov["exhaustive"] = False
     rep.sample({"src": items[0]["src"], "trace_head": items[0]["raw"].get("trace", [])[:12]})
